@@ -225,8 +225,13 @@ fn check_k_model(h: &CaseH, m: &Model, do_meta: bool) -> Verdict {
                 };
                 let k2 = &ind2.K_data;
                 let tol = 5e-4;
+                // the U of a ground element comes out of sums over the space's walls (exposed perimeter) and is rounded
+                // to two decimals by the library: another summation order may flip that last digit, which moves A.U by
+                // 0.01 x the ground area and nothing else; elements facing air do not depend on any such sum
+                let slack_au = 0.0101 * k.ground.a as f64;
+                let slack_k = if k.summary.a > 0.0 { slack_au / k.summary.a as f64 } else { 0.0 };
                 vensure!(
-                    close(k.K as f64, k2.K as f64, 2e-4, tol) && close(k.summary.a as f64, k2.summary.a as f64, 0.02, tol) && close(k.summary.au as f64, k2.summary.au as f64, 0.02, tol),
+                    close(k.K as f64, k2.K as f64, 2e-4 + slack_k, tol) && close(k.summary.a as f64, k2.summary.a as f64, 0.02, tol) && close(k.summary.au as f64, k2.summary.au as f64, 0.02 + slack_au, tol),
                     format!("C08:metamorphic:{}", label),
                     "K changes when the model is {}: K {} -> {}, A {} -> {}, AU {} -> {}",
                     label,
